@@ -315,6 +315,11 @@ func addRuntimeSeam(overlay, ovDir string) {
 	// timing-dependent scheduling point. Not while a seeded stream is installed (the collector is off, nothing
 	// inside a bubble runs that long of its own accord).
 	patch("proc.go.2", "\t\t\tpreemptone(pp)\n\t\t\t// If pp is in a syscall, preemptone doesn't work.", "\t\t\tif !verifLocalYield {\n\t\t\t\tpreemptone(pp)\n\t\t\t}\n\t\t\t// If pp is in a syscall, preemptone doesn't work.")
+	// synctest does not count a goroutine blocked on a sync.Mutex (or inside a sync.Once, or on a WaitGroup made
+	// outside the bubble) as idle, because somebody outside the bubble might release it. Inside our bubbles nobody
+	// else can: if every goroutine waits like that while the holder sleeps on the fake clock, the clock never moves
+	// and the run hangs (seen with a lazy map rebuilt on sync.Once). They count as idle here.
+	patch("runtime2.go", "\twaitReasonSyncCondWait:          true,\n", "\twaitReasonSyncCondWait:          true,\n\twaitReasonSyncMutexLock:         true,\n\twaitReasonSyncRWMutexRLock:      true,\n\twaitReasonSyncRWMutexLock:       true,\n\twaitReasonSyncWaitGroupWait:     true,\n")
 	patch("stack.go", "\t\tgopreempt_m(gp) // never return\n", "\t\tif gp.bubble != nil && verifPreemptOneIn != 0 {\n\t\t\tgoyield_m(gp) // never return\n\t\t}\n\t\tgopreempt_m(gp) // never return\n")
 	add, err := os.ReadFile(filepath.Join(verifDir, "overlayfiles", "runtime", "zz_verif_rand.go.txt"))
 	must(err)
